@@ -1,10 +1,153 @@
 (* Pins for C01: restated statements + assumptions. Generated once by tools/mkpins.py, then committed. *)
+Require Import VT.Tac VT.ListN VT.Utf8 VT.Width VT.Attrs VT.Cell VT.Row VT.Grid VT.Screen VT.Vte VT.Perform VT.Parser VT.Term VT.Emit.
+Require Import VT.RowInv VT.GridInv VT.TextInv VT.ScreenInv VT.ParseSer VT.CellWf VT.WfInv VT.WrapInv VT.WrapInvScreen VT.SgrSpec VT.EmitSafe VT.ObsSpec.
+Require Import VT.AttrsInv VT.EmitTokens VT.CellInv VT.Recv VT.RowPaint VT.Redraw VT.Cursor VT.C01Main VT.CapInv VT.Idem VT.LastRow VT.C01Examples VT.Bytes.
 Require Import VT.Tac VT.ListN VT.Utf8 VT.Width VT.Attrs VT.Cell VT.Row VT.Grid VT.Screen VT.Vte VT.Perform VT.Parser.
 Require Import VT.RowInv VT.GridInv VT.TextInv VT.ScreenInv VT.CellWf VT.WfGrid VT.WfVte VT.WfInv VT.WrapInv VT.WrapInvScreen.
 Require Import VT.Tac VT.ListN VT.Attrs VT.Cell VT.Row VT.Grid VT.Screen VT.Vte VT.Perform VT.Parser VT.Term VT.Emit.
 Require Import VT.GridInv VT.ScreenInv VT.ParseSer VT.CellWf VT.WfInv VT.SgrSpec VT.EmitSafe VT.AttrsInv VT.EmitTokens.
-Require Import VT.Props.C01wrap VT.Props.C01tok.
+Require Import VT.Props.C01 VT.Props.C01wrap VT.Props.C01tok.
 Open Scope N_scope.
+Check C01_play_def : forall rz R ts, play rz R ts = perform_all rz R (flat_map acts_of ts) [].
+Print Assumptions C01_play_def.
+Check C01_canvas_def : forall R, canvas R <->
+  (screen_ok R /\ screen_wf R /\ altmode R = false /\ top (g R) = 0 /\ bot (g R) = grows (g R) - 1 /\
+   origin (g R) = false /\ sb_off (g R) = 0).
+Print Assumptions C01_canvas_def.
+Check C01_cell_cap_def : forall c, cell_cap c <->
+  (forall p z q, ctext c = p ++ z :: q -> p <> [] -> text_len p < 18).
+Print Assumptions C01_cell_cap_def.
+Check C01_print_cell : forall R l r j a rw c, cv R l r j -> get l r = Some rw ->
+  cell_wf c -> cell_cap c -> has_contents c = true ->
+  j + adv_n c <= gcols (g R) -> slot_ok (cells rw) j (cwide c) ->
+  plays (rcv R l r j a) [TChars (ctext c)] (rcv R (set_at l r (put_cell rw j c a)) r (j + adv_n c) a).
+Print Assumptions C01_print_cell.
+Check C01_clear : forall R h, canvas R ->
+  plays R (t_hide_cursor h :: t_clear_attrs :: t_clear_screen)
+        (rcv (with_hide R h) (blank_rows (grows (g R)) (gcols (g R))) 0 0 dflt) /\
+  cv (with_hide R h) (blank_rows (grows (g R)) (gcols (g R))) 0 0.
+Print Assumptions C01_clear.
+Check C01_row : forall R i src wrapping start l0 ri0 rprev r0 c0 a0,
+  i < grows (g R) -> srow_ok (gcols (g R)) src -> start < gcols (g R) -> fc (cells src) start = false ->
+  cv R l0 r0 c0 -> pen_ok a0 -> get l0 i = Some ri0 ->
+  (forall k, start <= k < gcols (g R) -> get (cells ri0) k = Some cell_new) -> wrapped ri0 = false ->
+  (wrapping = true ->
+     start = 0 /\ r0 + 1 = i /\ c0 = gcols (g R) /\ get l0 r0 = Some rprev /\
+     exists lc, get (cells rprev) (gcols (g R) - 1) = Some lc /\ has_contents lc || ccont lc = true) ->
+  forall width, 1 <= width -> start + width <= gcols (g R) ->
+  exists ts r' c' a' ri,
+    row_formatted src start width i wrapping (Some (r0, c0)) (Some a0) = Ok (ts, (r', c'), a') /\
+    plays (rcv R l0 r0 c0 a0) ts (rcv R (set_at (Lfin i wrapping l0 rprev) i ri) r' c' a') /\
+    cv R (set_at (Lfin i wrapping l0 rprev) i ri) r' c' /\ pen_ok a' /\
+    painted_row R src start ri0 ri (if fc (cells src) (start + width) then start + width + 1 else start + width) /\
+    (wrapping = true -> r' = i) /\
+    (occ src (start + width) = true ->
+       r' = i /\ c' = (if fc (cells src) (start + width) then start + width + 1 else start + width)).
+Print Assumptions C01_row.
+Check C01_rows : forall R vr, canvas R -> vrows_ok (gcols (g R)) vr -> len vr = grows (g R) ->
+  exists ts r' c' a' l',
+    rows_formatted_loop (gcols (g R)) vr 0 false (0, 0) dflt [] = Ok (ts, (r', c'), a') /\
+    plays (rcv R (blank_rows (grows (g R)) (gcols (g R))) 0 0 dflt) ts (rcv R l' r' c' a') /\
+    cv R l' r' c' /\ pen_ok a' /\ Jinv R vr (grows (g R)) l' r' c'.
+Print Assumptions C01_rows.
+Check C01_cursor : forall R l r c a x vr,
+  cv R l r c -> pen_ok a -> rows_agree l vr (grows (g R)) ->
+  vrows_ok (gcols (g R)) vr -> len vr = grows (g R) ->
+  visible_rows x = Ok vr -> gcols x = gcols (g R) -> prow x < grows (g R) -> pcol x <= gcols (g R) ->
+  exists toks R2,
+    cursor_position_formatted x (Some (r, c)) (Some a) = Ok toks /\
+    plays (rcv R l r c a) toks (rcv R2 l (prow x) (pcol x) a) /\
+    cv R2 l (prow x) (pcol x) /\ same_base R R2.
+Print Assumptions C01_cursor.
+Check C01_dirty : forall S R vr ts,
+  source_ok S vr -> canvas R -> grows (g R) = grows (cur S) -> gcols (g R) = gcols (cur S) ->
+  contents_formatted_t S = Ok ts ->
+  exists R', play false R ts = Ok (R', []) /\ canvas R' /\ same_obs_minus S R' vr /\
+             keypad R' = keypad R /\ appcur R' = appcur R /\ paste R' = paste R /\
+             mmode R' = mmode R /\ menc R' = menc R.
+Print Assumptions C01_dirty.
+Check C01_fresh : forall S R vr ts,
+  source_ok S vr -> canvas R -> grows (g R) = grows (cur S) -> gcols (g R) = gcols (cur S) ->
+  mmode R = MNone -> menc R = EDefault ->
+  state_formatted_t S = Ok ts ->
+  exists R', play false R ts = Ok (R', []) /\ canvas R' /\ same_obs_minus S R' vr /\ same_modes S R'.
+Print Assumptions C01_fresh.
+Check C01_idem : forall S R ts,
+  source_ok S (live (cur S)) -> sb_off (cur S) = 0 ->
+  (forall src, get (live (cur S)) (grows (cur S) - 1) = Some src -> wrapped src = false) ->
+  canvas R -> grows (g R) = grows (cur S) -> gcols (g R) = gcols (cur S) ->
+  mmode R = MNone -> menc R = EDefault ->
+  state_formatted_t S = Ok ts ->
+  exists R', play false R ts = Ok (R', []) /\ canvas R' /\ obs R' = obs S /\ state_formatted_t R' = Ok ts.
+Print Assumptions C01_idem.
+Check C01_source_ok : forall S vr,
+  screen_ok S -> screen_wf S -> screen_wrapinv S -> pen_ok (pen S) ->
+  visible_rows (cur S) = Ok vr -> rows_width (gcols (cur S)) vr -> rows_cap vr -> rows_attrs_ok vr ->
+  source_ok S vr.
+Print Assumptions C01_source_ok.
+Check C01_idem_strong : forall S R vr ts,
+  source_ok S vr -> canvas R -> grows (g R) = grows (cur S) -> gcols (g R) = gcols (cur S) ->
+  mmode R = MNone -> menc R = EDefault ->
+  state_formatted_t S = Ok ts ->
+  exists R', play false R ts = Ok (R', []) /\ canvas R' /\ state_formatted_t R' = Ok ts.
+Print Assumptions C01_idem_strong.
+Check C01_cap_invariant : forall rows cols cap rz p ops q,
+  parser_new rows cols cap rz = Ok p -> run p ops = Ok q -> screen_cap (scr q).
+Print Assumptions C01_cap_invariant.
+Check C01_attrs_invariant : forall rows cols cap rz p ops q,
+  parser_new rows cols cap rz = Ok p -> run p ops = Ok q -> screen_attrs_ok (scr q).
+Print Assumptions C01_attrs_invariant.
+Check C01_cap_needed :
+  cell_wf cex_cell /\ ~ cell_cap cex_cell /\
+  fold_left (fun d z => cell_append z d) (repeat 768 9) (cell_set 128512 dflt cell_new) <> cex_cell.
+Print Assumptions C01_cap_needed.
+Check C01_reachable_source_ok : forall rows cols cap rz ops p q,
+  1 <= rows <= MAXDIM -> 1 <= cols <= MAXDIM ->
+  parser_new rows cols cap rz = Ok p -> Forall op_ok ops -> run p ops = Ok q ->
+  sb_off (cur (scr q)) = 0 -> source_ok (scr q) (live (cur (scr q))).
+Print Assumptions C01_reachable_source_ok.
+Check C01_fresh_reachable : forall rows cols cap rz ops p q cap' rz' r ts,
+  1 <= rows <= MAXDIM -> 1 <= cols <= MAXDIM ->
+  parser_new rows cols cap rz = Ok p -> Forall op_ok ops -> run p ops = Ok q ->
+  sb_off (cur (scr q)) = 0 ->
+  parser_new (grows (cur (scr q))) (gcols (cur (scr q))) cap' rz' = Ok r ->
+  state_formatted_t (scr q) = Ok ts ->
+  exists R', play false (scr r) ts = Ok (R', []) /\ canvas R' /\
+             same_obs_minus (scr q) R' (live (cur (scr q))) /\ same_modes (scr q) R'.
+Print Assumptions C01_fresh_reachable.
+Check C01_last_row_invariant : forall rows cols cap rz ops p q,
+  1 <= rows <= MAXDIM -> 1 <= cols <= MAXDIM ->
+  parser_new rows cols cap rz = Ok p -> Forall op_ok ops -> run p ops = Ok q ->
+  forall src, get (live (cur (scr q))) (grows (cur (scr q)) - 1) = Some src -> wrapped src = false.
+Print Assumptions C01_last_row_invariant.
+Check C01_reachable_obs : forall rows cols cap rz ops p q cap' rz' r ts,
+  1 <= rows <= MAXDIM -> 1 <= cols <= MAXDIM ->
+  parser_new rows cols cap rz = Ok p -> Forall op_ok ops -> run p ops = Ok q ->
+  sb_off (cur (scr q)) = 0 ->
+  parser_new (grows (cur (scr q))) (gcols (cur (scr q))) cap' rz' = Ok r ->
+  state_formatted_t (scr q) = Ok ts ->
+  exists R', play false (scr r) ts = Ok (R', []) /\ canvas R' /\ obs R' = obs (scr q) /\
+             state_formatted_t R' = Ok ts.
+Print Assumptions C01_reachable_obs.
+Check C01_any_rz : forall rz R ts R', play false R ts = Ok (R', []) -> play rz R ts = Ok (R', []).
+Print Assumptions C01_any_rz.
+Check C01_fresh_bytes : forall S p vr ts,
+  source_ok S vr -> canvas (scr p) -> ground (vt p) ->
+  grows (g (scr p)) = grows (cur S) -> gcols (g (scr p)) = gcols (cur S) ->
+  mmode (scr p) = MNone -> menc (scr p) = EDefault ->
+  state_formatted_t S = Ok ts -> forallb token_ok ts = true ->
+  exists q, process p (ser_all ts) = Ok q /\ log q = log p /\ ground (vt q) /\
+            canvas (scr q) /\ same_obs_minus S (scr q) vr /\ same_modes S (scr q).
+Print Assumptions C01_fresh_bytes.
+Check C01_reachable_bytes : forall rows cols cap rz ops p q cap' rz' r ts,
+  1 <= rows <= MAXDIM -> 1 <= cols <= MAXDIM ->
+  parser_new rows cols cap rz = Ok p -> Forall op_ok ops -> run p ops = Ok q ->
+  sb_off (cur (scr q)) = 0 ->
+  parser_new (grows (cur (scr q))) (gcols (cur (scr q))) cap' rz' = Ok r ->
+  state_formatted_t (scr q) = Ok ts ->
+  exists r', process r (ser_all ts) = Ok r' /\ log r' = [] /\ ground (vt r') /\
+             canvas (scr r') /\ obs (scr r') = obs (scr q) /\ state_formatted_t (scr r') = Ok ts.
+Print Assumptions C01_reachable_bytes.
 Check C01w_meaning : forall s,
   screen_wrapinv s <->
   (forall x, x = g s \/ x = alt s ->
